@@ -72,6 +72,7 @@ type BrokerOpts struct {
 	Node       string // cluster node name, default 00:00:00:00:00:01
 	Matcher    string // "" or "mqtt"
 	Retention  int    // storage retain seconds (0: provider default)
+	ReadRate   int    // per-connection read rate limit (messages per second, 0: default)
 }
 
 // Broker is an in-process emitter service that is never listening: clients are attached through pipes.
@@ -106,6 +107,7 @@ func NewBroker(o BrokerOpts) (*Broker, error) {
 	cfg := config.NewDefault().(*config.Config)
 	cfg.License = b.Lic.String()
 	cfg.Matcher = o.Matcher
+	cfg.Limit.ReadRate = o.ReadRate
 	cfg.Cluster = &config.ClusterConfig{NodeName: o.Node, ListenAddr: ":4000", AdvertiseAddr: ":4001", Directory: b.Dir}
 	// the default "self" monitor publishes stats/<node>/ messages into the license contract every few seconds,
 	// which wildcard subscribers of the harness would receive; use the no-op sink
